@@ -122,3 +122,108 @@ pub fn bmff_patch_region(asset: &mut [u8], at: usize, region_len: usize, signed:
     }
     true
 }
+
+// ---------------------------------------------------------------------------------------------
+// Non-BMFF containers: where a composed C2PA block goes, written by hand.
+
+/// JPEG: right after SOI and the JFIF APP0 segment (if present).
+pub fn jpeg_insert_offset(asset: &[u8]) -> Option<usize> {
+    if asset.len() < 4 || asset[0] != 0xFF || asset[1] != 0xD8 {
+        return None;
+    }
+    let mut at = 2;
+    if asset[2] == 0xFF && asset[3] == 0xE0 {
+        let l = u16::from_be_bytes([*asset.get(4)?, *asset.get(5)?]) as usize;
+        at += 2 + l;
+    }
+    Some(at)
+}
+
+/// PNG: right after the IHDR chunk (8 signature + 25 bytes).
+pub fn png_insert_offset(asset: &[u8]) -> Option<usize> {
+    if asset.len() >= 33 && &asset[12..16] == b"IHDR" {
+        Some(33)
+    } else {
+        None
+    }
+}
+
+/// GIF: after the logical screen descriptor and the global colour table.
+pub fn gif_insert_offset(asset: &[u8]) -> Option<usize> {
+    if asset.len() < 13 || &asset[..3] != b"GIF" {
+        return None;
+    }
+    let flags = asset[10];
+    let mut at = 13;
+    if flags & 0x80 != 0 {
+        at += 3 * (1usize << ((flags & 7) + 1));
+    }
+    Some(at)
+}
+
+/// Splices `insert` into `asset` at `at`.
+pub fn splice(asset: &[u8], at: usize, insert: &[u8]) -> Vec<u8> {
+    let mut v = Vec::with_capacity(asset.len() + insert.len());
+    v.extend_from_slice(&asset[..at]);
+    v.extend_from_slice(insert);
+    v.extend_from_slice(&asset[at..]);
+    v
+}
+
+/// Little-endian classic TIFF with one strip of `n` bytes and a C2PA field (tag 0xCD41, type
+/// UNDEFINED, count = manifest length) whose data block holds `manifest`.  Returns (bytes, offset
+/// of the manifest block).
+pub fn tiff_with_c2pa(n: usize, manifest: &[u8], trailing: &[u8]) -> (Vec<u8>, usize) {
+    let mut v = vec![b'I', b'I', 42, 0, 0, 0, 0, 0];
+    let strip_off = v.len() as u32;
+    v.extend((0..n).map(|i| (i * 13 % 256) as u8));
+    if v.len() % 2 == 1 {
+        v.push(0);
+    }
+    let man_off = v.len();
+    v.extend_from_slice(manifest);
+    if v.len() % 2 == 1 {
+        v.push(0);
+    }
+    v.extend_from_slice(trailing);
+    if v.len() % 2 == 1 {
+        v.push(0);
+    }
+    let ifd_off = v.len() as u32;
+    v[4..8].copy_from_slice(&ifd_off.to_le_bytes());
+    let entries: Vec<(u16, u16, u32, u32)> = vec![
+        (256, 3, 1, n as u32),
+        (257, 3, 1, 1),
+        (258, 3, 1, 8),
+        (259, 3, 1, 1),
+        (262, 3, 1, 1),
+        (273, 4, 1, strip_off),
+        (277, 3, 1, 1),
+        (278, 3, 1, 1),
+        (279, 4, 1, n as u32),
+        (0xCD41, 7, manifest.len() as u32, man_off as u32),
+    ];
+    v.extend_from_slice(&(entries.len() as u16).to_le_bytes());
+    for (tag, typ, cnt, val) in entries {
+        v.extend_from_slice(&tag.to_le_bytes());
+        v.extend_from_slice(&typ.to_le_bytes());
+        v.extend_from_slice(&cnt.to_le_bytes());
+        v.extend_from_slice(&val.to_le_bytes());
+    }
+    v.extend_from_slice(&0u32.to_le_bytes());
+    (v, man_off)
+}
+
+/// Minimal JPEG XL container: signature box, ftyp, [insert], jxlc (stub codestream), trailing boxes.
+/// Returns (bytes, offset of `insert`).
+pub fn jxl_with_box(insert: &[u8], extra_free: usize) -> (Vec<u8>, usize) {
+    let mut v = vec![0, 0, 0, 0x0C, b'J', b'X', b'L', b' ', 0x0D, 0x0A, 0x87, 0x0A];
+    v.extend(bmff_box(b"ftyp", b"jxl \0\0\0\0jxl "));
+    let at = v.len();
+    v.extend_from_slice(insert);
+    v.extend(bmff_box(b"jxlc", &[0xFF, 0x0A, 0x00]));
+    if extra_free >= 8 {
+        v.extend(bmff_box(b"Exif", &vec![0u8; extra_free - 8]));
+    }
+    (v, at)
+}
